@@ -60,14 +60,11 @@ def one(name):
     from sa.report import known_index, load_known
     from sa.rules import PROPERTIES
     d = os.path.join(VERIF, 'benign', name)
-    tmp = tempfile.mkdtemp(prefix='sa_benign_')
+    import scratch
+    tmp, how = scratch.make(os.path.join(d, 'patch.diff'), 'sa_benign_')
+    if tmp is None:
+        return name, None, f'patch does not apply: {how}', {}
     try:
-        for pkg in ('ml_pipeline_engine', 'ml_pipeline_viewer'):
-            shutil.copytree(os.path.join('/repo', pkg), os.path.join(tmp, pkg), ignore=shutil.ignore_patterns('__pycache__', 'node_modules', 'src'))
-        subprocess.run(['git', 'init', '-q', '.'], cwd=tmp)
-        r = subprocess.run(['git', 'apply', os.path.join(d, 'patch.diff')], cwd=tmp, capture_output=True, text=True)
-        if r.returncode != 0:
-            return name, None, f'patch does not apply: {r.stderr[:200]}', {}
         known = known_index(load_known())
 
         def tag(c):
